@@ -1,9 +1,20 @@
 package api
 
 import (
+	"fmt"
+	"os"
 	"testing"
 
 	"verif/harness/internal/hx"
 )
 
 func TestMain(m *testing.M) { hx.Main(m) }
+
+// setupFailed: a harness problem is never a verdict about the property; the case is skipped, and the reason goes to
+// stderr so that the driver's log shows why nothing was evaluated.
+func setupFailed(t interface {
+	Skipf(string, ...interface{})
+}, format string, a ...interface{}) {
+	fmt.Fprintf(os.Stderr, "HARNESS-SETUP-FAILED "+format+"\n", a...)
+	t.Skipf("HARNESS-SETUP-FAILED "+format, a...)
+}
